@@ -571,7 +571,7 @@ class C18(Prop):
             'to real main.py -l/-p/-r - expected exit status, no traceback, as many Closed as New notices. non-trivial = input that is neither '
             'empty nor fully valid (a line set that is partly decoded and partly passed through, a matcher/command longer than 2-3 characters, a '
             'byte string that is not valid UTF-8); distinct by SHA-1 of the case. thorough tier: 8 atheris (libFuzzer) campaigns (4 targets x empty/sample corpus) '
-            'with the same oracles inside the target and a token dictionary.')
+            'with the same oracles inside the target and a token dictionary. long-session-commands: commands after a session of thousands of messages (an id through > 702 incarnations) loaded behind a filter. Matchers with brackets nested up to 520 deep, command lines with the GDB prefix repeated up to 5000 times.')
     assumptions = ['a slow input is inconclusive, never a violation', 'LC_ALL=C.UTF-8',
                    'internal errors that the line loop catches, prints and survives are counted (counters internal-error-printed-and-survived:*) but are '
                    'not violations of the statement (the input is consumed to the end and every connection is closed)']
